@@ -8,6 +8,7 @@ line runs the real `uftrace record -d DIR` / `uftrace live` and snapshots the pa
 """
 import hashlib
 import os
+import re
 import shutil
 import time
 import subprocess
@@ -332,6 +333,31 @@ def e2e(ctx, objdir):
         if vname == "normal" and "foo" not in out:
             ctx.broken("e2e live run produced no trace output (rc=%d): %s" % (rc, (out + err)[-300:]))
         ctx.case(key=("e2e", "live", vname), tags=["e2e:live:" + vname])
+    # live mode, name taken in between (regression witness of the repaired defect live-cleanup-removes-foreign-directory):
+    # an interposed unlink() plants a foreign directory right after live mode released the mkstemp name
+    shim_so = os.path.join(root, "live_race_shim.so")
+    rc, o_, e_ = sh(["gcc", "-shared", "-fPIC", "-o", shim_so,
+                     os.path.join(os.path.dirname(os.path.dirname(os.path.abspath(__file__))), "harness", "c", "live_race_shim.c"),
+                     "-ldl"], timeout=60)
+    if rc != 0:
+        ctx.broken("live race shim does not compile", e_[-300:])
+    else:
+        rc, out, err = sh(["timeout", "30", uft, "live", "--no-pager", "--no-event", "--libmcount-path=" + objdir, exe],
+                          timeout=60, cwd=root, env={"LD_PRELOAD": shim_so})
+        m = re.search(r"SHIM planted (/tmp/uftrace-live-[A-Za-z0-9]+)/precious.txt", out + err)
+        ctx.case(key=("e2e", "live", "name-taken"), tags=["e2e:live:name-taken"])
+        if not m:
+            ctx.broken("live race scenario: the shim did not see the unlink of the temporary name", (out + err)[-300:])
+        else:
+            planted = m.group(1)
+            try:
+                kept = open(os.path.join(planted, "precious.txt")).read() == "foreign\n"
+            except OSError:
+                kept = False
+            shutil.rmtree(planted, ignore_errors=True)
+            if not kept:
+                ctx.violation("live mode removed a foreign directory that had taken its temporary name before the directory "
+                              "was created", {"mode": "e2e-live-race", "planted": planted, "output": (out + err)[-400:]}, True)
     return steps, hists
 
 
